@@ -123,6 +123,8 @@ class Scenario:
         self.kicked: List[Any] = []
         self.beh: Dict[str, Any] = {}
         self.listen_error: Optional[BaseException] = None
+        self.late: List[Any] = []  # (at, function, task name, labels): tasks registered while the worker runs
+        self.shared_names: List[str] = []  # names put into the process-wide shared registry (removed afterwards)
 
 
 # ------------------------------------------------------------------------------------
@@ -158,7 +160,8 @@ class ScriptedBroker(AsyncBroker):
         sc = self.sc
         n = self.nkicks
         self.nkicks += 1
-        sc.trace.add("kick", OWNER.get(), task_id=message.task_id, n=n, task_name=message.task_name)
+        sc.trace.add("kick", OWNER.get(), task_id=message.task_id, n=n, task_name=message.task_name,
+                     retries=str((message.labels or {}).get("_retries", 0)))
         sc.kicked.append(message)
         if self.kick_lat:
             await asyncio.sleep(self.kick_lat)
@@ -214,7 +217,8 @@ class MonInMemoryBroker(InMemoryBroker):
         sc = self.sc
         n = self.__dict__.setdefault("nkicks", 0)
         self.__dict__["nkicks"] = n + 1
-        sc.trace.add("kick", OWNER.get(), task_id=message.task_id, n=n, task_name=message.task_name)
+        sc.trace.add("kick", OWNER.get(), task_id=message.task_id, n=n, task_name=message.task_name,
+                     retries=str((message.labels or {}).get("_retries", 0)))
         sc.kicked.append(message)
         kf = sc.spec.get("kick_fail") or []
         if n in kf:
@@ -432,6 +436,10 @@ def _make_hook(sc: Scenario, i: int, hook: str, hs: Dict[str, Any]) -> Any:
         sc.trace.add("mw:" + hook, OWNER.get(), **data)
 
     def _post(message: Any) -> Any:
+        if hs.get("mutate_labels"):
+            # a hook that annotates the message it was given (after the execution): nothing already derived
+            # from the message - the result in particular - may change with it
+            message.labels["zz_mutated_by_" + hook] = i
         if rz == "all" or (isinstance(rz, list) and message.task_id in rz):
             sc.trace.add("mw_raise:" + hook, OWNER.get(), mw=i, tok=message.task_id)
             if hs.get("raise_exc") == "CancelledError":
@@ -556,7 +564,9 @@ def build_functions(sc: Scenario, broker: AsyncBroker) -> None:
         params = ["tok"]
         if ts.get("plain_param"):
             params.append("obj: _PlainCls = None")
-        params.append("*args")
+        strict = bool(ts.get("strict_sig"))  # no *args/**kwargs: a wrongly resolved call raises TypeError
+        if not strict:
+            params.append("*args")
         if ts.get("progress"):
             params.append("pt: ProgressTracker = TaskiqDepends()")
         for s in ts.get("deps", []):
@@ -564,26 +574,48 @@ def build_functions(sc: Scenario, broker: AsyncBroker) -> None:
             params.append(f"{s}=TaskiqDepends({s}, use_cache={uc})")
         if ts.get("ctx"):
             params.append("ctx: Context = TaskiqDepends()")
-        params.append("**kwargs")
+        if not strict:
+            params.append("**kwargs")
         ps = ", ".join(params)
         depvals = "{" + ", ".join(f"{s!r}: {s}" for s in ts.get("deps", [])) + "}"
         echo = "_echo(ctx)" if ts.get("ctx") else "None"
         fn = "fn_" + tname
+        a_kw = "(), {}" if strict else "args, kwargs"
         if ts.get("fn", "async") == "async":
             pt = "pt" if ts.get("progress") else "None"
             src = (
                 f"async def {fn}({ps}):\n"
-                f"    return await _run_beh(_sc, tok, args, kwargs, {depvals}, {echo}, {pt})\n"
+                f"    return await _run_beh(_sc, tok, {a_kw}, {depvals}, {echo}, {pt})\n"
             )
         else:
             src = (
                 f"def {fn}({ps}):\n"
-                f"    return _run_beh_sync(_sc, tok, args, kwargs, {depvals}, {echo})\n"
+                f"    return _run_beh_sync(_sc, tok, {a_kw}, {depvals}, {echo})\n"
             )
         exec(src, ns)  # noqa: S102
         f = ns[fn]
         f.__module__ = "mon.worker_harness"
-        broker.register_task(f, task_name=tname, **ts.get("labels", {}))
+        if ts.get("late_at") is not None:
+            sc.late.append((ts["late_at"], f, tname, ts.get("labels", {})))
+        elif ts.get("shared"):
+            # a task of the process-wide shared broker: any worker may be asked to run it
+            from taskiq import async_shared_broker
+
+            async_shared_broker.register_task(f, task_name=tname, **ts.get("labels", {}))
+            sc.shared_names.append(tname)
+        else:
+            broker.register_task(f, task_name=tname, **ts.get("labels", {}))
+    for tname in spec.get("shadow_shared", []):
+        # a shared task with the name of one of the worker's own tasks: the own one must be the one that runs
+        from taskiq import async_shared_broker
+
+        src = (f"async def shadow_{tname}(*args, **kwargs):\n"
+               f"    _sc.trace.add('foreign_call', OWNER.get(), task={tname!r})\n")
+        exec(src, ns)  # noqa: S102
+        g = ns["shadow_" + tname]
+        g.__module__ = "mon.worker_harness"
+        async_shared_broker.register_task(g, task_name=tname)
+        sc.shared_names.append(tname)
     for orig, repl in spec.get("overrides", {}).items():
         broker.dependency_overrides[ns[orig]] = ns[repl]
 
@@ -708,16 +740,17 @@ def build_payload(sc: Scenario, broker: AsyncBroker, m: Dict[str, Any], tok: str
     labels = dict(m.get("labels", {}))
     labels["own"] = tok
     if m.get("timeout") is not None:
-        labels["timeout"] = m["timeout"]
+        labels["timeout"] = str(m["timeout"]) if m.get("timeout_str") else m["timeout"]
     tname = "no_such_task" if kind == "unknown" else m.get("task", "t_async")
     if m.get("raw_labels"):
         # a message from a producer that does not send labels_types (hand-built / older client)
         from taskiq.message import TaskiqMessage
 
-        raw = TaskiqMessage(task_id=tok, task_name=tname, labels=labels, labels_types=None,
+        raw = TaskiqMessage(task_id=m.get("task_id", tok), task_name=tname, labels=labels, labels_types=None,
                             args=[tok] + list(m.get("args", [])), kwargs=dict(m.get("kwargs", {})))
         return broker.formatter.dumps(raw).message
-    kicker = AsyncKicker(tname, broker, labels).with_task_id(tok)
+    # task_id differs from the token only for re-deliveries (at-least-once brokers, ids re-used by the caller)
+    kicker = AsyncKicker(tname, broker, labels).with_task_id(m.get("task_id", tok))
     msg = kicker._prepare_message(tok, *m.get("args", []), **m.get("kwargs", {}))
     if m.get("partial_types") and msg.labels_types:
         # labels added after the kicker typed them (e.g. by a pre_send middleware): no type entry.
@@ -805,6 +838,8 @@ def run_worker(spec: Dict[str, Any], real: bool = False) -> RunResult:
             )
             broker.receiver.sc = sc
 
+            handles: Dict[str, Any] = {}
+
             async def _send_im(idx: int, m: Dict[str, Any]) -> None:
                 tok = m.get("tok") or f"m{idx}"
                 sc.beh[tok] = m.get("beh", {"dur": [], "out": "ok"})
@@ -813,11 +848,12 @@ def run_worker(spec: Dict[str, Any], real: bool = False) -> RunResult:
                 labels = dict(m.get("labels", {}))
                 labels["own"] = tok
                 if m.get("timeout") is not None:
-                    labels["timeout"] = m["timeout"]
+                    labels["timeout"] = str(m["timeout"]) if m.get("timeout_str") else m["timeout"]
                 sc.trace.add("send_begin", None, tok=tok)
                 try:
-                    await AsyncKicker(m.get("task", "t_async"), broker, labels).with_task_id(tok).kiq(
+                    handle = await AsyncKicker(m.get("task", "t_async"), broker, labels).with_task_id(tok).kiq(
                         tok, *m.get("args", []), **m.get("kwargs", {}))
+                    handles[tok] = handle
                     sc.trace.add("send_ok", None, tok=tok)
                 except BaseException as exc:  # noqa: BLE001
                     from taskiq.exceptions import SendTaskError
@@ -827,6 +863,23 @@ def run_worker(spec: Dict[str, Any], real: bool = False) -> RunResult:
 
             items = list(enumerate(spec.get("msgs", []))) + [(1000 + i, c) for i, c in enumerate(spec.get("client_sends", []))]
             await asyncio.gather(*[_send_im(i, m) for i, m in items if m.get("kind", "valid") == "valid"])
+            if spec.get("gather"):
+                # the client collects the results of all sends with taskiq.gather() while they are executing:
+                # the k-th result must be the one of the k-th handle
+                from taskiq import gather as tq_gather
+
+                order = [t for t in spec["gather"] if t in handles]
+                try:
+                    res = await tq_gather(*[handles[t] for t in order], timeout=spec.get("horizon", 120.0), periodicity=0.02)
+                    got = []
+                    for r in res:
+                        if r.is_err:
+                            got.append(getattr(r.error, "args", [None])[0] if getattr(r.error, "args", None) else None)
+                        else:
+                            got.append(r.return_value.get("tok") if isinstance(r.return_value, dict) else None)
+                    sc.trace.add("gather", None, want=order, got=safe_json(got))
+                except BaseException as exc:  # noqa: BLE001
+                    sc.trace.add("gather", None, want=order, got=None, exc=repr(exc))
             # drain: every execution task started by kick() (some may end with an exception: failing hooks)
             for _ in range(50):
                 pending = list(broker._running_tasks)
@@ -894,6 +947,11 @@ def run_worker(spec: Dict[str, Any], real: bool = False) -> RunResult:
                     sc.trace.add("send_err", None, tok=tok, exc=type(exc).__name__,
                                  cause=type(exc.__cause__).__name__, is_send_error=isinstance(exc, SendTaskError))
             await asyncio.gather(*[_send(s) for s in sends])
+        for at, f, tname, labels in sc.late:
+            def _reg(f: Any = f, tname: str = tname, labels: Any = labels) -> None:
+                broker.register_task(f, task_name=tname, **labels)
+                sc.trace.add("register", None, task=tname)
+            loop.call_at(T0 + at, _reg)
         ack = AcknowledgeType(cfg.get("ack", "when_saved"))
         MonReceiver.sc = sc
         if spec.get("via") == "api":
@@ -997,5 +1055,7 @@ def run_worker(spec: Dict[str, Any], real: bool = False) -> RunResult:
             if isinstance(g, threading.Event):
                 g.set()  # release executor threads still parked on a virtual-time gate
         executor.shutdown(wait=False, cancel_futures=True)
+        for nm in sc.shared_names:
+            AsyncBroker.global_task_registry.pop(nm, None)
     rr.trace = sc.trace.ev
     return rr
